@@ -174,6 +174,8 @@ func runC02(c *eng.Ctx, tier string) {
 	}
 	secretsKeyIsOwnName(c, "R-C02-7")
 	c.Floor("R-C02-7", 8)
+	// R-C02-8: failed calls (unknown name / version) are reported as not-found, not as success
+	notFoundDiscipline(c, "R-C02-8")
 }
 
 // c02Numbers: R-C02-3.
